@@ -11,7 +11,7 @@ def extend_histories(seed, tier):
     low-degree extension (the coefficient cache must never be reused for another N)"""
     rng = Rng(seed ^ 0xC05)
     cases = []
-    for _ in range(60 if tier == "quick" else 1500):
+    for _ in range(60 if tier == "quick" else 400):
         s = rng.choice([3, 4, 5])
         calls = []
         for _c in range(2 + rng.below(3)):
@@ -29,7 +29,9 @@ def extend_histories(seed, tier):
 
 
 def run(tier, seed):
-    res = C03.run_generic(PID, MODULE, "C05_", [2], tier, seed, "extendPol (N <= N_ext incl. N = 1 and N_ext = N)")
+    # thorough: two builds only (the Lean model re-executes every transform for every build: extendPol is the costliest)
+    res = C03.run_generic(PID, MODULE, "C05_", [2], tier, seed, "extendPol (N <= N_ext incl. N = 1 and N_ext = N)",
+                          thorough_flavours=("O1", "asan"))
     drv, err = build_driver()
     h, herr = build_harness("O1")
     if h and not herr:
